@@ -388,7 +388,8 @@ class OscMessageDispatcher(AbstractWrappingDispatcher):
             # Responders may free or disable themselves when called (e.g.
             # one_shot), the list must not change while it is iterated.
             for func in self.active[msg[0]].copy():
-                fn.value(func, msg, time, addr, recv_port)
+                if func in self.active.get(msg[0], ()):  # Still there.
+                    fn.value(func, msg, time, addr, recv_port)
 
     def register(self):
         _libsc3.main.add_osc_recv_func(self) # thisProcess.addOSCRecvFunc(this)
@@ -408,7 +409,8 @@ class OscMessagePatternDispatcher(OscMessageDispatcher):
         for key, funcs in self.active.copy().items():
             if _match_osc_address_pattern(pattern, key):
                 for func in funcs.copy():  # See OscMessageDispatcher.
-                    fn.value(func, msg, time, addr, recv_port)
+                    if func in self.active.get(key, ()):
+                        fn.value(func, msg, time, addr, recv_port)
 
     def type_key(self):
         return 'OSC matched'
